@@ -33,13 +33,199 @@ let cmd_offsets (args : string list) : string =
     ^ " " ^ Stdlib.String.concat " " (Stdlib.List.map one qs)
   | _ -> "BADCASE"
 
+
+(* ---- external functions the model is parametric in ---- *)
+
+(* A-f64-parse: restricted decimal syntax on which OCaml's float_of_string (strtod) and Rust's
+   str::parse::<f64> are both correctly rounded *)
+let is_simple_float (s : string) : bool =
+  let n = Stdlib.String.length s in
+  let i = ref 0 in
+  let digits () = let st = !i in
+    while !i < n && s.[!i] >= '0' && s.[!i] <= '9' do incr i done; !i > st in
+  if !i < n && (s.[!i] = '+' || s.[!i] = '-') then incr i;
+  if not (digits ()) then false
+  else begin
+    let ok = ref true in
+    if !i < n && s.[!i] = '.' then (incr i; if not (digits ()) then ok := false);
+    if !ok && !i < n && (s.[!i] = 'e' || s.[!i] = 'E') then begin
+      incr i;
+      if !i < n && (s.[!i] = '+' || s.[!i] = '-') then incr i;
+      if not (digits ()) then ok := false
+    end;
+    !ok && !i = n
+  end
+
+let le_bytes_of_int64 (b : int64) : BinNums.coq_N list =
+  Stdlib.List.init 8 (fun k ->
+    n_of_int (Int64.to_int (Int64.logand (Int64.shift_right_logical b (8 * k)) 0xFFL)))
+
+let parse_f64 (l : BinNums.coq_N list) : BinNums.coq_N list option =
+  let s = Stdlib.String.concat "" (Stdlib.List.map (fun b -> Stdlib.String.make 1 (Char.chr (int_of_n b))) l) in
+  if is_simple_float s then Some (le_bytes_of_int64 (Int64.bits_of_float (float_of_string s)))
+  else None
+
+(* A-lz4: any compressor with decompress (compress d) n = d for n >= |d|; the identity never
+   beats the keep-raw rule, so the model always stores raw data *)
+let lz_compress (d : BinNums.coq_N list) = d
+let lz_decompress (d : BinNums.coq_N list) (_ : Datatypes.nat) = Some d
+
+let cap = ref Consts.block_time_idx_max
+
+(* ---- canonical observation of a loaded signal ---- *)
+let str_of_bytes (l : BinNums.coq_N list) : string =
+  Stdlib.String.concat "" (Stdlib.List.map (fun b -> Stdlib.String.make 1 (Char.chr (int_of_n b))) l)
+
+let real_hex (le : BinNums.coq_N list) : string =
+  Stdlib.String.concat "" (Stdlib.List.rev_map (fun b -> Printf.sprintf "%02x" (int_of_n b)) le)
+
+let signal_obs (s : WaveMem.signal) : string =
+  let n = Stdlib.List.length s.WaveMem.s_idx in
+  if n = 0 then "-" else
+  Stdlib.String.concat "," (Stdlib.List.mapi (fun k t ->
+    match WaveMem.get_value_at s.WaveMem.s_data (nat_of_int k) with
+    | Base.Ok (kind, v) ->
+      (match kind with
+       | WaveMem.KBinary -> hex_of_n t ^ ":2:" ^ str_of_bytes v
+       | WaveMem.KFour -> hex_of_n t ^ ":4:" ^ str_of_bytes v
+       | WaveMem.KNine -> hex_of_n t ^ ":9:" ^ str_of_bytes v
+       | WaveMem.KReal -> hex_of_n t ^ ":R:" ^ real_hex v
+       | WaveMem.KString -> hex_of_n t ^ ":S:" ^ hex_of_bytes v)
+    | _ -> "PANIC") s.WaveMem.s_idx)
+
+let tt_obs (tt : BinNums.coq_N list) : string =
+  if tt = [] then "-" else Stdlib.String.concat "," (Stdlib.List.map hex_of_n tt)
+
+exception Model_panic
+exception Model_err
+let get (o : 'a Base.outcome) : 'a =
+  match o with Base.Ok a -> a | Base.Err -> raise Model_err | Base.Panic -> raise Model_panic
+
+let sig_enc_of (s : string) : WaveMem.sig_enc =
+  match s.[0] with
+  | 'r' -> WaveMem.EncReal
+  | 's' -> WaveMem.EncString
+  | _ ->
+    let w = int_of_string (Stdlib.String.sub s 1 (Stdlib.String.length s - 1)) in
+    WaveMem.EncBits (nat_of_int (if w = 0 then 1 else w))       (* SignalEncoding::bit_vec_of_len *)
+
+let states_of (s : string) : Bits.states =
+  match s with "0" -> Bits.Two | "1" -> Bits.Four | _ -> Bits.Nine
+
+let split2 (c : char) (s : string) : string * string =
+  let i = Stdlib.String.index s c in
+  (Stdlib.String.sub s 0 i, Stdlib.String.sub s (i + 1) (Stdlib.String.length s - i - 1))
+
+(* ---- enc <sigs> <ops> ---- *)
+let cmd_enc (args : string list) : string =
+  match args with
+  | sigs :: ops :: _ ->
+    let tpes = Stdlib.List.map sig_enc_of (split_on ',' sigs) in
+    let ops = split_on ';' ops in
+    let encs = ref [WaveMem.enc_new tpes] in
+    let upd f = match !encs with e :: r -> encs := f e :: r | [] -> () in
+    Stdlib.List.iter (fun op ->
+      let kind = op.[0] and rest = Stdlib.String.sub op 1 (Stdlib.String.length op - 1) in
+      match kind with
+      | 't' -> upd (fun e -> get (WaveMem.time_change lz_compress !cap e (n_of_hex rest)))
+      | 'v' -> let (id, v) = split2 ':' rest in
+        upd (fun e -> get (WaveMem.vcd_value_change parse_f64 e (nat_of_int (int_of_string id)) (bytes_of_hex v)))
+      | 'n' -> (match Stdlib.String.split_on_char ':' rest with
+          | [id; st; v] ->
+            upd (fun e -> get (WaveMem.raw_value_change e (nat_of_int (int_of_string id)) (bytes_of_hex v) (states_of st)))
+          | _ -> failwith "bad n op")
+      | 'f' -> let (id, v) = split2 ':' rest in
+        let le = Stdlib.List.rev (bytes_of_hex v) in
+        upd (fun e -> get (WaveMem.real_change e (nat_of_int (int_of_string id)) le))
+      | 'A' -> encs := WaveMem.enc_new tpes :: !encs
+      | _ -> failwith "bad op") ops;
+    (match Stdlib.List.rev !encs with
+     | first :: others ->
+       let e = Stdlib.List.fold_left (fun acc o -> get (WaveMem.append lz_compress acc o)) first others in
+       let (blocks, tt) = get (WaveMem.enc_finish lz_compress e) in
+       let sigs = Stdlib.List.mapi (fun i tpe ->
+         let s = get (WaveMem.load_signal lz_decompress blocks (nat_of_int i) tpe) in
+         Printf.sprintf " s%d=%s" i (signal_obs s)) tpes in
+       "tt=" ^ tt_obs tt ^ Stdlib.String.concat "" sigs
+     | [] -> "BADCASE")
+  | _ -> "BADCASE"
+
+
+(* ---- body <hexbytes> <stop_pos> ---- *)
+let debug = ref true
+
+let cmd_body (args : string list) : string =
+  match args with
+  | [input; stop] ->
+    let (evs, pres) = VcdBody.parse_body !debug (bytes_of_hex input) (nat_of_int (int_of_string stop)) in
+    (match pres with
+     | VcdBody.PPanic -> "PANIC"
+     | _ ->
+       let l = Stdlib.List.map (fun e -> match e with
+         | VcdBody.EvTime t -> "T" ^ hex_of_n t
+         | VcdBody.EvValue (v, id) -> "V" ^ hex_of_bytes v ^ ":" ^ hex_of_bytes id) evs in
+       (if l = [] then "-" else Stdlib.String.concat "," l) ^ "|" ^
+       (match pres with VcdBody.PDone -> "OK" | _ -> "ERR"))
+  | _ -> "BADCASE"
+
+(* ---- vcd <mode> <D|M;tpes;idhex:idx,...> <hdrhex> <bodyhex> ---- *)
+let parse_sigs (s : string) =
+  match Stdlib.String.split_on_char ';' s with
+  | [kind; tpes; ids] ->
+    let tpes = Stdlib.List.map (fun t -> if t = "-" then None else Some (sig_enc_of t)) (split_on ',' tpes) in
+    let lookup =
+      if kind = "D" then None
+      else Some (Stdlib.List.map (fun e -> let (id, idx) = split2 ':' e in
+                   (bytes_of_hex id, nat_of_int (int_of_string idx))) (split_on ',' ids)) in
+    (tpes, lookup)
+  | _ -> failwith "bad sigs"
+
+let load_all (tpes : WaveMem.sig_enc option list) (blocks, tt) : string =
+  let sigs = Stdlib.List.mapi (fun i tpe ->
+    match tpe with
+    | None -> ""
+    | Some tpe ->
+      let s = get (WaveMem.load_signal lz_decompress blocks (nat_of_int i) tpe) in
+      Printf.sprintf " s%d=%s" i (signal_obs s)) tpes in
+  "tt=" ^ tt_obs tt ^ Stdlib.String.concat "" sigs
+
+let cmd_vcd (args : string list) : string =
+  match args with
+  | [mode; sigs; hdr; body] ->
+    let (tpes, lookup) = parse_sigs sigs in
+    (* Encoder::new: a signal without a variable gets a String encoder *)
+    let enc_tpes = Stdlib.List.map (fun t -> match t with None -> WaveMem.EncString | Some t -> t) tpes in
+    let body_bytes = bytes_of_hex body in
+    let header_len = (Stdlib.String.length hdr) / 2 in
+    let header_len = if hdr = "-" then 0 else header_len in
+    let m = Stdlib.String.split_on_char ':' mode in
+    let st () = VcdBody.read_values_st parse_f64 lz_compress !cap !debug enc_tpes lookup body_bytes in
+    let mt threads minc = VcdBody.read_values_mt parse_f64 lz_compress !cap !debug enc_tpes lookup body_bytes
+        (nat_of_int threads) (nat_of_int (if minc = 0 then int_of_n Consts.min_chunk_size else minc)) in
+    let rd () = VcdBody.read_values_reader parse_f64 lz_compress !cap !debug enc_tpes lookup body_bytes (nat_of_int header_len) in
+    let bl = Printf.sprintf " bl=%x" (Stdlib.List.length body_bytes) in
+    (match m with
+     | ["st"] -> load_all tpes (get (st ()))
+     | ["mt"; t; c] -> load_all tpes (get (mt (int_of_string t) (int_of_string c)))
+     | ["rd"] | ["rb"] -> load_all tpes (get (rd ()))
+     | ["hc"] | ["hp"] -> load_all tpes (get (rd ())) ^ bl
+     | ["hf"; "0"] -> load_all tpes (get (st ())) ^ bl
+     | ["hf"; "1"] -> load_all tpes (get (mt 4 0)) ^ bl
+     | _ -> "BADMODE")
+  | _ -> "BADCASE"
+
 let dispatch (cmd : string) (args : string list) : string =
   match cmd with
   | "offsets" -> cmd_offsets args
+  | "enc" -> cmd_enc args
+  | "body" -> cmd_body args
+  | "vcd" -> cmd_vcd args
   | _ -> "UNSUPPORTED"
 
 let () =
-  let ic = if Array.length Sys.argv > 1 then open_in Sys.argv.(1) else stdin in
+  let argv = Array.to_list Sys.argv in
+  let argv = Stdlib.List.filter (fun a -> if a = "--release" then (debug := false; false) else true) argv in
+  let ic = (match argv with _ :: f :: _ -> open_in f | _ -> stdin) in
   let lineno = ref 0 in
   (try
     while true do
@@ -49,6 +235,8 @@ let () =
         match Stdlib.String.split_on_char ' ' line with
         | cmd :: args ->
           let res = (try dispatch cmd args with
+                     | Model_panic -> "PANIC"
+                     | Model_err -> "ERR"
                      | Stack_overflow -> "MODEL-STACK-OVERFLOW"
                      | Failure m -> "MODEL-FAILURE:" ^ m) in
           print_string (string_of_int !lineno); print_char ' '; print_endline res
